@@ -8,8 +8,9 @@ use crate::vm::vcell::VCell;
 use log::trace;
 use num::ToPrimitive;
 use std::borrow::Cow;
-use std::collections::HashMap;
+use std::collections::{HashMap, HashSet};
 use std::ops::Deref;
+use std::rc::Rc;
 
 pub type HeapRef = usize;
 
@@ -264,6 +265,14 @@ impl Heap {
     /// # Arguments
     /// `vcell` - The vcell to map to a cell
     pub fn get_as_cell(&self, vcell: &VCell) -> Cell {
+        self.get_as_cell_under(vcell, &mut HashSet::new())
+    }
+
+    /// get_as_cell with the set of locations whose conversion is in progress: the pairs along
+    /// the path from the root (by heap index) and the vectors (by address). Meeting one of them
+    /// again means the structure contains itself; a datum cannot, so the cycle is cut there and
+    /// rendered as the symbol #<cycle>.
+    fn get_as_cell_under(&self, vcell: &VCell, open: &mut HashSet<(bool, usize)>) -> Cell {
         match vcell {
             VCell::Bool(val) => Cell::Bool(*val),
             VCell::Char(val) => Cell::Char(*val),
@@ -271,23 +280,45 @@ impl Heap {
             VCell::Nil => Cell::Nil,
             VCell::Pair(_, _) => {
                 let mut v = vec![];
+                let mut walked = vec![];
                 let mut rest = vcell.clone();
-                loop {
-                    v.push(self.get_as_cell(&rest.as_car().unwrap()));
-                    match self.get_at_index(rest.as_cdr().unwrap().as_ptr().unwrap()) {
+                let cell = loop {
+                    v.push(self.get_as_cell_under(&rest.as_car().unwrap(), open));
+                    let cdr = rest.as_cdr().unwrap().as_ptr().unwrap();
+                    match self.get_at_index(cdr) {
                         pair if pair.is_pair() => {
+                            if !open.insert((true, cdr)) {
+                                break Cell::new_improper_list(v, Cell::new_symbol("#<cycle>"));
+                            }
+                            walked.push(cdr);
                             rest = pair.clone();
                         }
                         VCell::Nil => {
-                            return Cell::new_list(v);
+                            break Cell::new_list(v);
                         }
                         cell => {
-                            return Cell::new_improper_list(v, self.get_as_cell(cell));
+                            let tail = self.get_as_cell_under(cell, open);
+                            break Cell::new_improper_list(v, tail);
                         }
                     }
+                };
+                for cdr in walked {
+                    open.remove(&(true, cdr));
                 }
+                cell
             }
-            VCell::Ptr(ptr) => self.get_as_cell(self.get_at_index(*ptr)),
+            VCell::Ptr(ptr) => {
+                let target = self.get_at_index(*ptr);
+                if !target.is_pair() {
+                    return self.get_as_cell_under(target, open);
+                }
+                if !open.insert((true, *ptr)) {
+                    return Cell::new_symbol("#<cycle>");
+                }
+                let cell = self.get_as_cell_under(target, open);
+                open.remove(&(true, *ptr));
+                cell
+            }
             VCell::String(s) => Cell::String(s.borrow().deref().into()),
             VCell::Symbol(s) => Cell::Symbol(s.deref().into()),
             VCell::Undefined => Cell::Undefined,
@@ -301,10 +332,15 @@ impl Heap {
             VCell::BuiltInProc(proc) => Cell::Procedure(Some(proc.desc().to_string())),
             VCell::Macro(_) => Cell::Macro,
             VCell::Vector(vector) => {
+                let addr = Rc::as_ptr(vector) as usize;
+                if !open.insert((false, addr)) {
+                    return Cell::new_symbol("#<cycle>");
+                }
                 let mut outv = Vec::with_capacity(vector.len());
                 for idx in 0..vector.len() {
-                    outv.push(self.get_as_cell(&vector.get(idx).unwrap()));
+                    outv.push(self.get_as_cell_under(&vector.get(idx).unwrap(), open));
                 }
+                open.remove(&(false, addr));
                 Cell::Vector(outv)
             }
             // Any internal values used by bytecode aren't convertible to Cells and
